@@ -100,13 +100,16 @@ package pfcp
 //@   requires sessOK(s) && req != nil
 //@   ensures [ok]    sessOK(s)
 //@   ensures [frameok] forall t *Sess :: old(allocated(t)) && old(sessOK(t)) && t != s && t.LocalID != s.LocalID ==> sessOK(t)
+//@   ensures [node]  old(s.rnode.local != nil && nodeInv(s.rnode.local) && inSlot(s.rnode.local, s)) ==> nodeInv(s.rnode.local)
 //@   ensures [rec]   ok(req.FARID()) ==> val(req.FARID()) in s.FARIDs
 //@   ensures [mono]  forall id uint32 :: id in old(s.FARIDs) ==> id in s.FARIDs
-//@   ensures [isol]  forall k RuleKey :: k.seid != s.LocalID ==> ((k in DP) == (k in old(DP)))
+//@   ensures [isol]  forall k RuleKey :: k.seid != s.LocalID ==> ((k in DP) == (k in old(DP))) && ((k in CREATED) == (k in old(CREATED)))
 //@   ensures [sup]   forall k RuleKey :: k in old(DP) ==> k in DP
 //@   ensures [noid]  !ok(req.FARID()) ==> err != nil && DP == old(DP) && CREATED == old(CREATED)
 //@   modifies s.FARIDs[_], DP, CREATED
 //@   reveal sessOK
+//@   reveal nodeInv allSessOK dpLive lnodeWF
+//@   uses ok frameok for node hiding sessOK
 //@   serves C01 C05 C07
 //@   at call CreateFAR:
 //@     assert [seid]     arg0 == s.LocalID && arg1 == req
@@ -117,6 +120,8 @@ package pfcp
 //@   ensures [ok]    sessOK(s)
 //@   modifies nothing
 //@   reveal sessOK
+//@   reveal nodeInv allSessOK dpLive lnodeWF
+//@   uses ok frameok for node hiding sessOK
 //@   serves C01 C05 C07
 //@   at call UpdateFAR:
 //@     assert [seid] arg0 == s.LocalID && arg1 == req
@@ -125,13 +130,16 @@ package pfcp
 //@   requires sessOK(s) && req != nil
 //@   ensures [ok]    sessOK(s)
 //@   ensures [frameok] forall t *Sess :: old(allocated(t)) && old(sessOK(t)) && t != s && t.LocalID != s.LocalID ==> sessOK(t)
+//@   ensures [node]  old(s.rnode.local != nil && nodeInv(s.rnode.local) && inSlot(s.rnode.local, s)) ==> nodeInv(s.rnode.local)
 //@   ensures [gone]  ok(req.FARID()) && val(req.FARID()) in old(s.FARIDs) ==> !(RuleKey(s.LocalID, 2, uint64(val(req.FARID()))) in DP)
 //@   ensures [sub]   forall k RuleKey :: k in DP ==> k in old(DP)
-//@   ensures [isol]  forall k RuleKey :: k.seid != s.LocalID ==> ((k in DP) == (k in old(DP)))
+//@   ensures [isol]  forall k RuleKey :: k.seid != s.LocalID ==> ((k in DP) == (k in old(DP))) && ((k in CREATED) == (k in old(CREATED)))
 //@   ensures [keys]  forall id uint32 :: id in s.FARIDs ==> id in old(s.FARIDs)
 //@   ensures [del]   err == nil ==> !(val(req.FARID()) in s.FARIDs)
 //@   modifies s.FARIDs[_], DP
 //@   reveal sessOK
+//@   reveal nodeInv allSessOK dpLive lnodeWF
+//@   uses ok frameok for node hiding sessOK
 //@   serves C01 C05 C07
 //@   at call RemoveFAR:
 //@     assert [seid] arg0 == s.LocalID && arg1 == req
@@ -140,13 +148,16 @@ package pfcp
 //@   requires sessOK(s) && req != nil
 //@   ensures [ok]    sessOK(s)
 //@   ensures [frameok] forall t *Sess :: old(allocated(t)) && old(sessOK(t)) && t != s && t.LocalID != s.LocalID ==> sessOK(t)
+//@   ensures [node]  old(s.rnode.local != nil && nodeInv(s.rnode.local) && inSlot(s.rnode.local, s)) ==> nodeInv(s.rnode.local)
 //@   ensures [rec]   ok(req.QERID()) ==> val(req.QERID()) in s.QERIDs
 //@   ensures [mono]  forall id uint32 :: id in old(s.QERIDs) ==> id in s.QERIDs
-//@   ensures [isol]  forall k RuleKey :: k.seid != s.LocalID ==> ((k in DP) == (k in old(DP)))
+//@   ensures [isol]  forall k RuleKey :: k.seid != s.LocalID ==> ((k in DP) == (k in old(DP))) && ((k in CREATED) == (k in old(CREATED)))
 //@   ensures [sup]   forall k RuleKey :: k in old(DP) ==> k in DP
 //@   ensures [noid]  !ok(req.QERID()) ==> err != nil && DP == old(DP) && CREATED == old(CREATED)
 //@   modifies s.QERIDs[_], DP, CREATED
 //@   reveal sessOK
+//@   reveal nodeInv allSessOK dpLive lnodeWF
+//@   uses ok frameok for node hiding sessOK
 //@   serves C01 C05 C07
 //@   at call CreateQER:
 //@     assert [seid]     arg0 == s.LocalID && arg1 == req
@@ -157,6 +168,8 @@ package pfcp
 //@   ensures [ok]    sessOK(s)
 //@   modifies nothing
 //@   reveal sessOK
+//@   reveal nodeInv allSessOK dpLive lnodeWF
+//@   uses ok frameok for node hiding sessOK
 //@   serves C01 C05 C07
 //@   at call UpdateQER:
 //@     assert [seid] arg0 == s.LocalID && arg1 == req
@@ -165,13 +178,16 @@ package pfcp
 //@   requires sessOK(s) && req != nil
 //@   ensures [ok]    sessOK(s)
 //@   ensures [frameok] forall t *Sess :: old(allocated(t)) && old(sessOK(t)) && t != s && t.LocalID != s.LocalID ==> sessOK(t)
+//@   ensures [node]  old(s.rnode.local != nil && nodeInv(s.rnode.local) && inSlot(s.rnode.local, s)) ==> nodeInv(s.rnode.local)
 //@   ensures [gone]  ok(req.QERID()) && val(req.QERID()) in old(s.QERIDs) ==> !(RuleKey(s.LocalID, 3, uint64(val(req.QERID()))) in DP)
 //@   ensures [sub]   forall k RuleKey :: k in DP ==> k in old(DP)
-//@   ensures [isol]  forall k RuleKey :: k.seid != s.LocalID ==> ((k in DP) == (k in old(DP)))
+//@   ensures [isol]  forall k RuleKey :: k.seid != s.LocalID ==> ((k in DP) == (k in old(DP))) && ((k in CREATED) == (k in old(CREATED)))
 //@   ensures [keys]  forall id uint32 :: id in s.QERIDs ==> id in old(s.QERIDs)
 //@   ensures [del]   err == nil ==> !(val(req.QERID()) in s.QERIDs)
 //@   modifies s.QERIDs[_], DP
 //@   reveal sessOK
+//@   reveal nodeInv allSessOK dpLive lnodeWF
+//@   uses ok frameok for node hiding sessOK
 //@   serves C01 C05 C07
 //@   at call RemoveQER:
 //@     assert [seid] arg0 == s.LocalID && arg1 == req
@@ -180,13 +196,16 @@ package pfcp
 //@   requires sessOK(s) && req != nil
 //@   ensures [ok]    sessOK(s)
 //@   ensures [frameok] forall t *Sess :: old(allocated(t)) && old(sessOK(t)) && t != s && t.LocalID != s.LocalID ==> sessOK(t)
+//@   ensures [node]  old(s.rnode.local != nil && nodeInv(s.rnode.local) && inSlot(s.rnode.local, s)) ==> nodeInv(s.rnode.local)
 //@   ensures [rec]   ok(req.BARID()) ==> val(req.BARID()) in s.BARIDs
 //@   ensures [mono]  forall id uint8 :: id in old(s.BARIDs) ==> id in s.BARIDs
-//@   ensures [isol]  forall k RuleKey :: k.seid != s.LocalID ==> ((k in DP) == (k in old(DP)))
+//@   ensures [isol]  forall k RuleKey :: k.seid != s.LocalID ==> ((k in DP) == (k in old(DP))) && ((k in CREATED) == (k in old(CREATED)))
 //@   ensures [sup]   forall k RuleKey :: k in old(DP) ==> k in DP
 //@   ensures [noid]  !ok(req.BARID()) ==> err != nil && DP == old(DP) && CREATED == old(CREATED)
 //@   modifies s.BARIDs[_], DP, CREATED
 //@   reveal sessOK
+//@   reveal nodeInv allSessOK dpLive lnodeWF
+//@   uses ok frameok for node hiding sessOK
 //@   serves C01 C05 C07
 //@   at call CreateBAR:
 //@     assert [seid]     arg0 == s.LocalID && arg1 == req
@@ -197,6 +216,8 @@ package pfcp
 //@   ensures [ok]    sessOK(s)
 //@   modifies nothing
 //@   reveal sessOK
+//@   reveal nodeInv allSessOK dpLive lnodeWF
+//@   uses ok frameok for node hiding sessOK
 //@   serves C01 C05 C07
 //@   at call UpdateBAR:
 //@     assert [seid] arg0 == s.LocalID && arg1 == req
@@ -205,13 +226,16 @@ package pfcp
 //@   requires sessOK(s) && req != nil
 //@   ensures [ok]    sessOK(s)
 //@   ensures [frameok] forall t *Sess :: old(allocated(t)) && old(sessOK(t)) && t != s && t.LocalID != s.LocalID ==> sessOK(t)
+//@   ensures [node]  old(s.rnode.local != nil && nodeInv(s.rnode.local) && inSlot(s.rnode.local, s)) ==> nodeInv(s.rnode.local)
 //@   ensures [gone]  ok(req.BARID()) && val(req.BARID()) in old(s.BARIDs) ==> !(RuleKey(s.LocalID, 5, uint64(val(req.BARID()))) in DP)
 //@   ensures [sub]   forall k RuleKey :: k in DP ==> k in old(DP)
-//@   ensures [isol]  forall k RuleKey :: k.seid != s.LocalID ==> ((k in DP) == (k in old(DP)))
+//@   ensures [isol]  forall k RuleKey :: k.seid != s.LocalID ==> ((k in DP) == (k in old(DP))) && ((k in CREATED) == (k in old(CREATED)))
 //@   ensures [keys]  forall id uint8 :: id in s.BARIDs ==> id in old(s.BARIDs)
 //@   ensures [del]   err == nil ==> !(val(req.BARID()) in s.BARIDs)
 //@   modifies s.BARIDs[_], DP
 //@   reveal sessOK
+//@   reveal nodeInv allSessOK dpLive lnodeWF
+//@   uses ok frameok for node hiding sessOK
 //@   serves C01 C05 C07
 //@   at call RemoveBAR:
 //@     assert [seid] arg0 == s.LocalID && arg1 == req
@@ -226,9 +250,10 @@ package pfcp
 //@   requires sessOK(s) && ieWF(req)
 //@   ensures [ok]    sessOK(s)
 //@   ensures [frameok]  forall t *Sess :: old(allocated(t)) && old(sessOK(t)) && t != s && t.LocalID != s.LocalID ==> sessOK(t)
+//@   ensures [node]  old(s.rnode.local != nil && nodeInv(s.rnode.local) && inSlot(s.rnode.local, s)) ==> nodeInv(s.rnode.local)
 //@   ensures [rec]   ok(req.URRID()) ==> val(req.URRID()) in s.URRIDs
 //@   ensures [mono]  forall id uint32 :: id in old(s.URRIDs) ==> id in s.URRIDs
-//@   ensures [isol]  forall k RuleKey :: k.seid != s.LocalID ==> ((k in DP) == (k in old(DP)))
+//@   ensures [isol]  forall k RuleKey :: k.seid != s.LocalID ==> ((k in DP) == (k in old(DP))) && ((k in CREATED) == (k in old(CREATED)))
 //@   ensures [sup]   forall k RuleKey :: k in old(DP) ==> k in DP
 //@   ensures [noid]  !ok(req.URRID()) ==> err != nil && DP == old(DP) && CREATED == old(CREATED)
 //@   ensures [start] ok(req.URRID()) ==> s.URRIDs[val(req.URRID())].SEQN == 0 && s.URRIDs[val(req.URRID())].refPdrNum == 0 &&
@@ -237,6 +262,8 @@ package pfcp
 //@                     s.URRIDs[val(req.URRID())].DURAT == req.HasDURAT() && s.URRIDs[val(req.URRID())].EVENT == req.HasEVENT()
 //@   modifies s.URRIDs[_], DP, CREATED
 //@   reveal sessOK
+//@   reveal nodeInv allSessOK dpLive lnodeWF
+//@   uses ok frameok for node hiding sessOK
 //@   serves C01 C05 C07 C10 C11
 //@   loop range(req.ChildIEs):
 //@     modifies nothing
@@ -250,8 +277,11 @@ package pfcp
 //@   ensures [seqn]  forall u uint32 :: u in s.URRIDs ==> s.URRIDs[u].SEQN == old(s.URRIDs[u].SEQN) && s.URRIDs[u].refPdrNum == old(s.URRIDs[u].refPdrNum)
 //@   ensures [ok]    sessOK(s)
 //@   ensures [frameok]  forall t *Sess :: old(allocated(t)) && old(sessOK(t)) && t != s && t.LocalID != s.LocalID ==> sessOK(t)
+//@   ensures [node]  old(s.rnode.local != nil && nodeInv(s.rnode.local) && inSlot(s.rnode.local, s)) ==> nodeInv(s.rnode.local)
 //@   modifies s.URRIDs[_].DURAT, s.URRIDs[_].VOLUM, s.URRIDs[_].EVENT, s.URRIDs[_].MBQE, s.URRIDs[_].INAM, s.URRIDs[_].RADI, s.URRIDs[_].ISTM, s.URRIDs[_].MNOP
 //@   reveal sessOK
+//@   reveal nodeInv allSessOK dpLive lnodeWF
+//@   uses ok frameok for node hiding sessOK
 //@   serves C01 C05 C07
 //@   loop range(req.ChildIEs):
 //@     modifies s.URRIDs[_].DURAT, s.URRIDs[_].VOLUM, s.URRIDs[_].EVENT, s.URRIDs[_].MBQE, s.URRIDs[_].INAM, s.URRIDs[_].RADI, s.URRIDs[_].ISTM, s.URRIDs[_].MNOP
@@ -263,15 +293,18 @@ package pfcp
 //@   requires sessOK(s) && req != nil
 //@   ensures [ok]    sessOK(s)
 //@   ensures [frameok]  forall t *Sess :: old(allocated(t)) && old(sessOK(t)) && t != s && t.LocalID != s.LocalID ==> sessOK(t)
+//@   ensures [node]  old(s.rnode.local != nil && nodeInv(s.rnode.local) && inSlot(s.rnode.local, s)) ==> nodeInv(s.rnode.local)
 //@   ensures [gone]  ok(req.URRID()) && val(req.URRID()) in s.URRIDs ==> !(RuleKey(s.LocalID, 4, uint64(val(req.URRID()))) in DP)
 //@   ensures [sub]   forall k RuleKey :: k in DP ==> k in old(DP)
-//@   ensures [isol]  forall k RuleKey :: k.seid != s.LocalID ==> ((k in DP) == (k in old(DP)))
+//@   ensures [isol]  forall k RuleKey :: k.seid != s.LocalID ==> ((k in DP) == (k in old(DP))) && ((k in CREATED) == (k in old(CREATED)))
 //@   ensures [termr] err == nil ==> (forall j int :: 0 <= j && j < len(usars) ==> usars[j].USARTrigger.Flags & report.USAR_TRIG_TERMR != 0)
 //@   ensures [mark]  ok(req.URRID()) && val(req.URRID()) in s.URRIDs ==> s.URRIDs[val(req.URRID())].removed
 //@   ensures [errnil] err != nil ==> usars == nil
 //@   ensures [freshres] usars == nil || fresh(usars)
 //@   modifies s.URRIDs[_].removed, DP
 //@   reveal sessOK
+//@   reveal nodeInv allSessOK dpLive lnodeWF
+//@   uses ok frameok for node hiding sessOK
 //@   serves C01 C05 C07 C12
 //@   loop range(usars):
 //@     modifies usars[_]
@@ -286,8 +319,11 @@ package pfcp
 //@   ensures [freshres] usars == nil || fresh(usars)
 //@   ensures [ok]    sessOK(s)
 //@   ensures [frameok]  forall t *Sess :: old(allocated(t)) && old(sessOK(t)) && t != s && t.LocalID != s.LocalID ==> sessOK(t)
+//@   ensures [node]  old(s.rnode.local != nil && nodeInv(s.rnode.local) && inSlot(s.rnode.local, s)) ==> nodeInv(s.rnode.local)
 //@   modifies nothing
 //@   reveal sessOK
+//@   reveal nodeInv allSessOK dpLive lnodeWF
+//@   uses ok frameok for node hiding sessOK
 //@   serves C01 C05 C07 C12
 //@   loop range(usars):
 //@     modifies usars[_]
@@ -305,8 +341,11 @@ package pfcp
 //@   ensures [freshres] usars == nil || fresh(usars)
 //@   ensures [ok]    sessOK(s)
 //@   ensures [frameok]  forall t *Sess :: old(allocated(t)) && old(sessOK(t)) && t != s && t.LocalID != s.LocalID ==> sessOK(t)
+//@   ensures [node]  old(s.rnode.local != nil && nodeInv(s.rnode.local) && inSlot(s.rnode.local, s)) ==> nodeInv(s.rnode.local)
 //@   modifies s.URRIDs[urrid].refPdrNum
 //@   reveal sessOK
+//@   reveal nodeInv allSessOK dpLive lnodeWF
+//@   uses ok frameok for node hiding sessOK
 //@   serves C01 C05 C07 C12
 //@   loop range(usars):
 //@     modifies usars[_]
@@ -331,12 +370,15 @@ package pfcp
 //@   requires sessOK(s) && req != nil
 //@   ensures [ok]    sessOK(s)
 //@   ensures [frameok]  forall t *Sess :: old(allocated(t)) && old(sessOK(t)) && t != s && t.LocalID != s.LocalID ==> sessOK(t)
-//@   ensures [isol]  forall k RuleKey :: k.seid != s.LocalID ==> ((k in DP) == (k in old(DP)))
+//@   ensures [node]  old(s.rnode.local != nil && nodeInv(s.rnode.local) && inSlot(s.rnode.local, s)) ==> nodeInv(s.rnode.local)
+//@   ensures [isol]  forall k RuleKey :: k.seid != s.LocalID ==> ((k in DP) == (k in old(DP))) && ((k in CREATED) == (k in old(CREATED)))
 //@   ensures [sup]   forall k RuleKey :: k in old(DP) ==> k in DP
 //@   ensures [mono]  forall id uint16 :: id in old(s.PDRIDs) ==> id in s.PDRIDs
 //@   ensures [pf]    !ok(req.CreatePDR()) ==> err != nil && DP == old(DP) && CREATED == old(CREATED)
 //@   modifies s.PDRIDs[_], s.URRIDs[_].refPdrNum, DP, CREATED
 //@   reveal sessOK
+//@   reveal nodeInv allSessOK dpLive lnodeWF
+//@   uses ok frameok for node hiding sessOK
 //@   serves C01 C05 C07
 //@   loop range(ies):
 //@     modifies s.URRIDs[_].refPdrNum, urrids[_]
@@ -350,10 +392,13 @@ package pfcp
 //@   requires sessOK(s) && req != nil
 //@   ensures [ok]    sessOK(s)
 //@   ensures [frameok]  forall t *Sess :: old(allocated(t)) && old(sessOK(t)) && t != s && t.LocalID != s.LocalID ==> sessOK(t)
+//@   ensures [node]  old(s.rnode.local != nil && nodeInv(s.rnode.local) && inSlot(s.rnode.local, s)) ==> nodeInv(s.rnode.local)
 //@   ensures [dp]    DP == old(DP)
 //@   ensures [termr] forall j int :: 0 <= j && j < len(usars) ==> usars[j].USARTrigger.Flags & report.USAR_TRIG_TERMR != 0
 //@   modifies s.PDRIDs[_].RelatedURRIDs, s.URRIDs[_].refPdrNum
 //@   reveal sessOK
+//@   reveal nodeInv allSessOK dpLive lnodeWF
+//@   uses ok frameok for node hiding sessOK
 //@   serves C01 C05 C07 C12
 //@   loop range(ies):
 //@     modifies newUrrids[_]
@@ -369,14 +414,17 @@ package pfcp
 //@   requires sessOK(s) && req != nil
 //@   ensures [ok]    sessOK(s)
 //@   ensures [frameok]  forall t *Sess :: old(allocated(t)) && old(sessOK(t)) && t != s && t.LocalID != s.LocalID ==> sessOK(t)
+//@   ensures [node]  old(s.rnode.local != nil && nodeInv(s.rnode.local) && inSlot(s.rnode.local, s)) ==> nodeInv(s.rnode.local)
 //@   ensures [gone]  ok(req.PDRID()) && val(req.PDRID()) in old(s.PDRIDs) ==> !(RuleKey(s.LocalID, 1, uint64(val(req.PDRID()))) in DP)
 //@   ensures [sub]   forall k RuleKey :: k in DP ==> k in old(DP)
-//@   ensures [isol]  forall k RuleKey :: k.seid != s.LocalID ==> ((k in DP) == (k in old(DP)))
+//@   ensures [isol]  forall k RuleKey :: k.seid != s.LocalID ==> ((k in DP) == (k in old(DP))) && ((k in CREATED) == (k in old(CREATED)))
 //@   ensures [keys]  forall id uint16 :: id in s.PDRIDs ==> id in old(s.PDRIDs)
 //@   ensures [del]   err == nil ==> !(val(req.PDRID()) in s.PDRIDs)
 //@   ensures [termr] forall j int :: 0 <= j && j < len(usars) ==> usars[j].USARTrigger.Flags & report.USAR_TRIG_TERMR != 0
 //@   modifies s.PDRIDs[_], s.URRIDs[_].refPdrNum, DP
 //@   reveal sessOK
+//@   reveal nodeInv allSessOK dpLive lnodeWF
+//@   uses ok frameok for node hiding sessOK
 //@   serves C01 C05 C07 C12
 //@   loop range(pdrInfo.RelatedURRIDs):
 //@     modifies s.URRIDs[_].refPdrNum
@@ -391,7 +439,7 @@ package pfcp
 //@ func (s *Sess) Close() (usars []report.USAReport)
 //@   requires sessOK(s)
 //@   ensures [withdrawn] forall k RuleKey :: k.seid == s.LocalID ==> !(k in DP)
-//@   ensures [others]    forall k RuleKey :: k.seid != s.LocalID ==> ((k in DP) == (k in old(DP)))
+//@   ensures [others]    forall k RuleKey :: k.seid != s.LocalID ==> ((k in DP) == (k in old(DP))) && ((k in CREATED) == (k in old(CREATED)))
 //@   ensures [termr]     forall j int :: 0 <= j && j < len(usars) ==> usars[j].USARTrigger.Flags & report.USAR_TRIG_TERMR != 0
 //@   ensures [queues]    forall p uint16 :: p in s.q ==> closed(s.q[p])
 //@   ensures [urrs]      urrsOK(s) && (forall u uint32 :: (u in s.URRIDs) == (u in old(s.URRIDs))) && (forall u uint32 :: u in s.URRIDs ==> s.URRIDs[u] == old(s.URRIDs[u]) && s.URRIDs[u].SEQN == old(s.URRIDs[u].SEQN))
@@ -403,32 +451,32 @@ package pfcp
 //@     modifies s.FARIDs[_], DP
 //@     invariant [inv]   sessOK(s)
 //@     invariant [done]  forall id uint32 :: id in visited ==> !(RuleKey(s.LocalID, 2, uint64(id)) in DP)
-//@     invariant [isol]  forall k RuleKey :: k.seid != s.LocalID ==> ((k in DP) == (k in old(DP)))
+//@     invariant [isol]  forall k RuleKey :: k.seid != s.LocalID ==> ((k in DP) == (k in old(DP))) && ((k in CREATED) == (k in old(CREATED)))
 //@   loop range(s.QERIDs):
 //@     modifies s.QERIDs[_], DP
 //@     invariant [inv]   sessOK(s)
 //@     invariant [done]  forall id uint32 :: id in visited ==> !(RuleKey(s.LocalID, 3, uint64(id)) in DP)
 //@     invariant [prev]  forall k RuleKey :: k in DP && k.seid == s.LocalID ==> k.kind != 2
-//@     invariant [isol]  forall k RuleKey :: k.seid != s.LocalID ==> ((k in DP) == (k in old(DP)))
+//@     invariant [isol]  forall k RuleKey :: k.seid != s.LocalID ==> ((k in DP) == (k in old(DP))) && ((k in CREATED) == (k in old(CREATED)))
 //@   loop range(s.URRIDs):
 //@     modifies s.URRIDs[_].removed, DP
 //@     invariant [inv]   sessOK(s)
 //@     invariant [done]  forall id uint32 :: id in visited ==> !(RuleKey(s.LocalID, 4, uint64(id)) in DP)
 //@     invariant [prev]  forall k RuleKey :: k in DP && k.seid == s.LocalID ==> k.kind != 2 && k.kind != 3
-//@     invariant [isol]  forall k RuleKey :: k.seid != s.LocalID ==> ((k in DP) == (k in old(DP)))
+//@     invariant [isol]  forall k RuleKey :: k.seid != s.LocalID ==> ((k in DP) == (k in old(DP))) && ((k in CREATED) == (k in old(CREATED)))
 //@     invariant [termr] forall j int :: 0 <= j && j < len(usars) ==> usars[j].USARTrigger.Flags & report.USAR_TRIG_TERMR != 0
 //@   loop range(s.BARIDs):
 //@     modifies s.BARIDs[_], DP
 //@     invariant [inv]   sessOK(s)
 //@     invariant [done]  forall id uint8 :: id in visited ==> !(RuleKey(s.LocalID, 5, uint64(id)) in DP)
 //@     invariant [prev]  forall k RuleKey :: k in DP && k.seid == s.LocalID ==> k.kind != 2 && k.kind != 3 && k.kind != 4
-//@     invariant [isol]  forall k RuleKey :: k.seid != s.LocalID ==> ((k in DP) == (k in old(DP)))
+//@     invariant [isol]  forall k RuleKey :: k.seid != s.LocalID ==> ((k in DP) == (k in old(DP))) && ((k in CREATED) == (k in old(CREATED)))
 //@   loop range(s.PDRIDs):
 //@     modifies s.PDRIDs[_], s.URRIDs[_].refPdrNum, DP
 //@     invariant [inv]   sessOK(s)
 //@     invariant [done]  forall id uint16 :: id in visited ==> !(RuleKey(s.LocalID, 1, uint64(id)) in DP)
 //@     invariant [prev]  forall k RuleKey :: k in DP && k.seid == s.LocalID ==> k.kind != 2 && k.kind != 3 && k.kind != 4 && k.kind != 5
-//@     invariant [isol]  forall k RuleKey :: k.seid != s.LocalID ==> ((k in DP) == (k in old(DP)))
+//@     invariant [isol]  forall k RuleKey :: k.seid != s.LocalID ==> ((k in DP) == (k in old(DP))) && ((k in CREATED) == (k in old(CREATED)))
 //@     invariant [termr] forall j int :: 0 <= j && j < len(usars) ==> usars[j].USARTrigger.Flags & report.USAR_TRIG_TERMR != 0
 //@   loop range(s.q):
 //@     modifies chans(s.q)
@@ -439,6 +487,7 @@ package pfcp
 //@   requires sessOK(s)
 //@   ensures [ok]    sessOK(s)
 //@   ensures [frameok]  forall t *Sess :: old(allocated(t)) && old(sessOK(t)) && t != s && t.LocalID != s.LocalID ==> sessOK(t)
+//@   ensures [node]  old(s.rnode.local != nil && nodeInv(s.rnode.local) && inSlot(s.rnode.local, s)) ==> nodeInv(s.rnode.local)
 //@   ensures [keys]  forall q uint16 :: q in s.q <==> (q in old(s.q) || q == pdrid)
 //@   ensures [same]  forall q uint16 :: q in old(s.q) ==> s.q[q] == old(s.q[q])
 //@   ensures [new]   !old(pdrid in s.q) ==> fresh(s.q[pdrid]) && cap(s.q[pdrid]) == s.qlen
@@ -453,6 +502,8 @@ package pfcp
 //@   modifies s.q[_], chans(s.q)
 //@   owns s.q[pdrid] by s when !old(pdrid in s.q)
 //@   reveal sessOK
+//@   reveal nodeInv allSessOK dpLive lnodeWF
+//@   uses ok frameok for node hiding sessOK
 //@   serves C13 C05 C07
 
 //@ func (s *Sess) Len(pdrid uint16) (n int)
@@ -461,12 +512,15 @@ package pfcp
 //@   ensures [absent] !(pdrid in s.q) ==> n == 0
 //@   modifies nothing
 //@   reveal sessOK
+//@   reveal nodeInv allSessOK dpLive lnodeWF
+//@   uses ok frameok for node hiding sessOK
 //@   serves C13 C07
 
 //@ func (s *Sess) Pop(pdrid uint16) (pkt []byte, ok bool)
 //@   requires sessOK(s)
 //@   ensures [ok]     sessOK(s) && ownsMaps(s)
 //@   ensures [frameok]  forall t *Sess :: old(allocated(t)) && old(sessOK(t)) && t != s && t.LocalID != s.LocalID ==> sessOK(t)
+//@   ensures [node]  old(s.rnode.local != nil && nodeInv(s.rnode.local) && inSlot(s.rnode.local, s)) ==> nodeInv(s.rnode.local)
 //@   ensures [absent] !(pdrid in s.q) ==> !ok && pkt == nil
 //@   ensures [headel] pdrid in s.q && old(len(s.q[pdrid])) != 0 ==> ok && pkt == old(chat(s.q[pdrid], chhead(s.q[pdrid]))) &&
 //@                      chhead(s.q[pdrid]) == old(chhead(s.q[pdrid])) + 1 && chtail(s.q[pdrid]) == old(chtail(s.q[pdrid]))
@@ -475,6 +529,8 @@ package pfcp
 //@   ensures [kept]   forall q uint16; i int :: q in s.q ==> chat(s.q[q], i) == old(chat(s.q[q], i))
 //@   modifies chans(s.q)
 //@   reveal sessOK
+//@   reveal nodeInv allSessOK dpLive lnodeWF
+//@   uses ok frameok for node hiding sessOK
 //@   serves C13 C05 C07
 
 // ---------------------------------------------------------------------------------------------
@@ -501,11 +557,14 @@ package pfcp
 //@   ensures [termr]  forall j int :: 0 <= j && j < len(usars) ==> usars[j].USARTrigger.Flags & report.USAR_TRIG_TERMR != 0
 //@   ensures [wf]     lnodeWF(n)
 //@   ensures [frameok]   forall t *Sess :: old(allocated(t)) && old(sessOK(t)) && old(live(n, lSeid) ==> t != n.sess[lSeid-1]) && t.LocalID != lSeid ==> sessOK(t)
+//@   ensures [node]   old(nodeInv(n)) ==> nodeInv(n)
 //@   modifies n.free, n.sess[_], DP, CREATED,
 //@            n.sess[lSeid-1].FARIDs[_], n.sess[lSeid-1].QERIDs[_], n.sess[lSeid-1].BARIDs[_], n.sess[lSeid-1].PDRIDs[_],
 //@            n.sess[lSeid-1].URRIDs[_].removed, n.sess[lSeid-1].URRIDs[_].refPdrNum, chans(n.sess[lSeid-1].q)
 //@   reveal sessOK
 //@   reveal lnodeWF
+//@   reveal nodeInv allSessOK dpLive
+//@   uses frameok for node hiding sessOK
 //@   serves C01 C04 C05 C07 C12 C13
 //@   cases zero: lSeid == 0 | low: 0 < lSeid && lSeid < 1<<63 | edge: lSeid == 1<<63 | hi: lSeid > 1<<63
 //@   after call Close:
@@ -532,10 +591,13 @@ package pfcp
 //@   ensures [ok]     sessOK(s) && ownsMaps(s)
 //@   ensures [frameok] forall t *Sess :: old(allocated(t)) && old(sessOK(t)) ==> sessOK(t)
 //@   ensures [wf]     lnodeWF(n.local) && dpLive(n.local)
+//@   ensures [node]   old(nodeInv(n.local)) ==> nodeInv(n.local)
 //@   modifies n.sess[_], n.local.sess, n.local.free, n.local.sess[_]
 //@   reveal sessOK
 //@   reveal dpLive
 //@   reveal lnodeWF
+//@   reveal nodeInv allSessOK
+//@   uses ok frameok for node hiding sessOK
 //@   serves C04 C05 C01 C13
 
 //@ func (n *RemoteNode) DeleteSess(lSeid uint64) (usars []report.USAReport)
@@ -555,6 +617,7 @@ package pfcp
 //@                        (!old(lSeid in n.sess) ==> n.local.sess[i] == old(n.local.sess[i])))
 //@   ensures [wf]      lnodeWF(n.local)
 //@   ensures [frameok]    forall t *Sess :: old(allocated(t)) && old(sessOK(t)) && old(live(n.local, lSeid) ==> t != n.local.sess[lSeid-1]) && t.LocalID != lSeid ==> sessOK(t)
+//@   ensures [node]    old(nodeInv(n.local)) ==> nodeInv(n.local)
 //@   modifies n.sess[_], n.local.free, n.local.sess[_], DP, CREATED,
 //@            n.local.sess[lSeid-1].FARIDs[_], n.local.sess[lSeid-1].QERIDs[_], n.local.sess[lSeid-1].BARIDs[_], n.local.sess[lSeid-1].PDRIDs[_],
 //@            n.local.sess[lSeid-1].URRIDs[_].removed, n.local.sess[lSeid-1].URRIDs[_].refPdrNum, chans(n.local.sess[lSeid-1].q)
@@ -565,6 +628,12 @@ package pfcp
 
 // allSessOK(n): every live session is well-formed (opaque sessOK) and owns its maps; separation follows from ownership.
 //@ opaque pred allSessOK(n *LocalNode) = forall i int :: 0 <= i && i < len(n.sess) && n.sess[i] != nil ==> sessOK(n.sess[i]) && ownsMaps(n.sess[i])
+
+// inSlot(n, t): t is the live session registered in n under its own SEID.
+//@ pred inSlot(n *LocalNode, t *Sess) = t != nil && live(n, t.LocalID) && n.sess[t.LocalID-1] == t
+// nodeInv(n): the whole-node invariant handlers carry as one opaque fact; every session operation states that it
+// preserves it ([node] postconditions), so handlers never re-derive it slot by slot.
+//@ opaque pred nodeInv(n *LocalNode) = lnodeWF(n) && allSessOK(n) && dpLive(n)
 
 //@ func (n *RemoteNode) Reset()
 //@   requires nodeWF(n) && lnodeWF(n.local) && allSessOK(n.local) && dpLive(n.local)
@@ -748,7 +817,7 @@ package pfcp
 //@ opaque pred nodesWF(s *PfcpServer) = forall id string :: id in s.rnodes ==> nodeWF(s.rnodes[id]) && s.rnodes[id].local == s.lnode && s.rnodes[id].ID == id
 //@ opaque pred linked(s *PfcpServer) = forall i int :: 0 <= i && i < len(s.lnode.sess) && s.lnode.sess[i] != nil ==>
 //@        nodeWF(s.lnode.sess[i].rnode) && s.lnode.sess[i].rnode.local == s.lnode && (uint64(i) + 1) in s.lnode.sess[i].rnode.sess
-//@ pred srvInv(s *PfcpServer) = srvWF(s) && lnodeWF(s.lnode) && allSessOK(s.lnode) && dpLive(s.lnode) && nodesWF(s) && linked(s)
+//@ pred srvInv(s *PfcpServer) = srvWF(s) && nodeInv(s.lnode) && nodesWF(s) && linked(s)
 
 // A-HDRWF: a parsed request has a header (go-pfcp's parser always sets it)
 //@ func (s *PfcpServer) handleHeartbeatRequest(req *message.HeartbeatRequest, addr net.Addr)
@@ -784,8 +853,7 @@ package pfcp
 //@   reveal srvWF
 //@   reveal nodesWF
 //@   reveal linked
-//@   reveal lnodeWF
-//@   reveal allSessOK
+//@   reveal nodeInv lnodeWF allSessOK dpLive
 //@   flag perreturn
 //@   cases known: val(req.NodeID.NodeID()) in s.rnodes | unknown: !(val(req.NodeID.NodeID()) in s.rnodes)
 //@   serves C01 C04 C05 C08 C07
@@ -804,7 +872,7 @@ package pfcp
 //@   ensures [others] forall id uint64 :: id != hdrSEID(req.Header) ==> (live(s.lnode, id) == old(live(s.lnode, id))) && (old(live(s.lnode, id)) ==> s.lnode.sess[id-1] == old(s.lnode.sess[id-1]))
 //@   ensures [isol]   forall k RuleKey :: k.seid != hdrSEID(req.Header) ==> ((k in DP) == (k in old(DP)))
 //@   modifies *
-//@   reveal allSessOK dpLive linked lnodeWF
+//@   reveal nodeInv allSessOK dpLive linked lnodeWF
 //@   flag perreturn
 //@   serves C01 C04 C05 C08 C11 C12 C07
 //@   loop range(usars):
@@ -829,3 +897,20 @@ package pfcp
 //@   at call IEsWithinSessDelRsp:
 //@     assert [seqn]  recv.URSEQN + 1 == sess.URRIDs[recv.URRID].SEQN
 //@     assert [termr] recv.USARTrigger.Flags & report.USAR_TRIG_TERMR != 0
+
+// Session Report Response: a response with SEID 0 in its header means the peer no longer knows the session the
+// report was about; exactly the session whose CP-SEID and peer address match the answered request is removed.
+//@ func (s *PfcpServer) handleSessionReportResponse(rsp *message.SessionReportResponse, addr net.Addr, req message.Message)
+//@   requires s != nil && srvInv(s) && rsp != nil && rsp.Header != nil && req != nil && hdrOf(req) != nil && addr != nil
+//@   ensures [inv]     srvInv(s)
+//@   ensures [nonzero] rsp.Header.SEID != 0 ==> DP == old(DP) && CREATED == old(CREATED) && (forall id uint64 :: live(s.lnode, id) == old(live(s.lnode, id)))
+//@   ensures [match]   forall id uint64 :: old(live(s.lnode, id)) && !live(s.lnode, id) ==>
+//@                       rsp.Header.SEID == 0 && old(s.lnode.sess[id-1].RemoteID) == hdrSEID(hdrOf(req)) && old(addrStr(s.lnode.sess[id-1].rnode.addr)) == addrStr(addr)
+//@   ensures [one]     forall a uint64; b uint64 :: old(live(s.lnode, a)) && !live(s.lnode, a) && old(live(s.lnode, b)) && !live(s.lnode, b) ==> a == b
+//@   ensures [nonew]   forall id uint64 :: live(s.lnode, id) ==> old(live(s.lnode, id)) && s.lnode.sess[id-1] == old(s.lnode.sess[id-1])
+//@   ensures [clean]   forall k RuleKey :: old(live(s.lnode, k.seid)) && !live(s.lnode, k.seid) ==> !(k in DP)
+//@   ensures [isol]    forall k RuleKey :: live(s.lnode, k.seid) ==> ((k in DP) == (k in old(DP)))
+//@   modifies *
+//@   reveal nodeInv allSessOK linked lnodeWF
+//@   flag perreturn
+//@   serves C01 C04 C05 C07
